@@ -18,7 +18,7 @@ from .c03 import _fresh_policy_answer
 ID = "C11"
 LEVEL = "exploration"
 QUICK_RUNS = 3200
-RULE = ("Each run: LSHNearest(n_dimensions 1..6, n_tables 1..4) over a drawn policy, d in 1..4, integer-grid contexts, "
+RULE = ("Each run: LSHNearest(n_dimensions 1..6, in a tenth of the runs 31..40, n_tables 1..4) over a drawn policy, d in 1..4, integer-grid contexts, "
         "history fit + partial_fit* with restarts, n_jobs in {1,2,3,5,-1} and a drawn backend; queries: stored rows, "
         "positive multiples c*row, the zero vector (all projections exactly 0), random rows; every training operation and "
         "query under its own seeded schedule.")
@@ -34,7 +34,7 @@ def generate(rnd, tier, index=0):
     kind, arms, spare = gen.gen_arms(rnd, hi=4)
     d = rnd.randint(1, 4)
     rk = "binary" if lp[0] == "ThompsonSampling" else ("nonneg" if lp[0] == "Popularity" else rnd.choice(["binary", "smallint"]))
-    np_ = ["LSHNearest", {"n_dimensions": rnd.randint(1, 6), "n_tables": rnd.randint(1, 4)}]
+    np_ = ["LSHNearest", {"n_dimensions": rnd.choice([31, 32, 33, 40]) if rnd.random() < 0.1 else rnd.randint(1, 6), "n_tables": rnd.randint(1, 4)}]
     if rnd.random() < 0.3:
         np_[1]["no_nhood_prob_of_arm"] = gen.gen_probs(rnd, len(arms))
     cfg = {"arms": arms, "lp": lp, "np": np_, "seed": rnd.randrange(2 ** 20), "n_jobs": rnd.choice([1, 2, 3, 5, -1]),
